@@ -14,16 +14,22 @@ namespace NmVerif.NN
 def poolExtent (n k s : Nat) (ceil : Bool) : Nat :=
   if ceil then (n - k + s - 1) / s + 1 else (n - k) / s + 1
 
-/-- `index::shape_pool2d`: leading axes copied, the last two pooled (`none` = fewer than two axes: out-of-range `at`) -/
-def shapePool2d : Shape → List Nat → List Nat → Bool → Option Shape
-  | [h, w], [kh, kw], [sh, sw], c => some [poolExtent h kh sh c, poolExtent w kw sw c]
-  | b :: rest@(_ :: _ :: _), k, s, c => (shapePool2d rest k s c).map (b :: ·)
-  | _, _, _, _ => none
+/-- `index::shape_pool2d`: `n_batch = dim - 2` leading axes copied, then axes `-2`, `-1` pooled
+    (`none` = fewer than two axes or kernel/stride not pairs: out-of-range `at` in the C++) -/
+def shapePool2d (shape kernel stride : List Nat) (ceil : Bool) : Option Shape :=
+  if shape.length < 2 then none else
+  let nb := shape.length - 2
+  match shape.drop nb, kernel, stride with
+  | [h, w], [kh, kw], [sh, sw] => some (shape.take nb ++ [poolExtent h kh sh ceil, poolExtent w kw sw ceil])
+  | _, _, _ => none
 
-/-- `index::slice_pool2d`: `(i, i+1, 1)` on the leading axes, `(s*i, s*i + k, 1)` on the last two -/
-def slicePool2d : Idx → List Nat → List Nat → Option (List (Nat × Nat × Nat))
-  | [i, j], [kh, kw], [sh, sw] => some [(sh * i, sh * i + kh, 1), (sw * j, sw * j + kw, 1)]
-  | i :: rest@(_ :: _ :: _), k, s => (slicePool2d rest k s).map ((i, i + 1, 1) :: ·)
+/-- `index::slice_pool2d`: `(i, i+1, 1)` on the `dim - 2` leading axes, `(s*i, s*i + k, 1)` on axes `-2`, `-1` -/
+def slicePool2d (idx : Idx) (shape kernel stride : List Nat) : Option (List (Nat × Nat × Nat)) :=
+  if shape.length < 2 then none else
+  let nb := shape.length - 2
+  match idx.drop (idx.length - 2), kernel, stride with
+  | [i, j], [kh, kw], [sh, sw] =>
+      some ((idx.take nb).map (fun i => (i, i + 1, 1)) ++ [(sh * i, sh * i + kh, 1), (sw * j, sw * j + kw, 1)])
   | _, _, _ => none
 
 /-- indices selected on an axis of extent `n` by the slice `(start, stop, 1)` as `apply_slice` computes them:
@@ -40,7 +46,7 @@ def cartesian : List (List Nat) → List Idx
 
 /-- source multi-indices read by `pool2d_t::operator()(idx)`, in the order the reducer sees them -/
 def poolWindow (src : Shape) (kernel stride : List Nat) (idx : Idx) : Option (List Idx) :=
-  (slicePool2d idx kernel stride).map fun sls => cartesian (List.zipWith sliceRange src sls)
+  (slicePool2d idx src kernel stride).map fun sls => cartesian (List.zipWith sliceRange src sls)
 
 /-- the order-revealing reducer of the harness: `acc ↦ 31*acc + id + 1 (mod 2^32)` over the window's flat source ids;
     `none` = the window is empty or reaches outside the source (undefined behaviour of the real reducers) -/
